@@ -194,8 +194,9 @@ CLAIMED = {
              "each spanning exactly its characters (`lex_line_of_tokens`, `lexLineAux_sequence` by induction over the line). "
              "String/char literals with escapes (`string_literal_exact`, `char_literal_exact`): any run of printable characters, simple "
              "escapes, `\\xHH`, `\\u{..}` and raw non-ASCII characters is the token holding exactly the bytes those items stand for. "
-             "Partial: the error side (which code an ILLEGAL lexeme gets) is covered for number overflow by theorem and otherwise by "
-             "correspondence only.",
+             "Totality (`lexer_total`): every step on a non-empty rest consumes a character or ends the line, so the fuel of lex_line "
+             "is never exhausted on any input. Partial: the error side (which code an ILLEGAL lexeme gets) is covered for number "
+             "overflow by theorem and otherwise by correspondence only.",
         note="Trusted: Lean kernel (propext, Quot.sound, Classical.choice at most), transcription of alpha/lexer.rs (checked exactly, "
              "incl. spans, by correspondence), harness token dump of both real lexers. Delta is compared on kinds/payloads/suffix "
              "types/exact spans of proper tokens and on code+line of error tokens; seven divergence classes are known findings "
